@@ -60,6 +60,9 @@ c?d+e*         { return 5; }
 foo|bar*       { return 10; }
 [k-m]q|kq      { return 11; }
 (n|no|[n-p]o)r  { return 12; }
+("ab"+c)?d     { return 21; }
+("xy"*z){0,2}w { return 22; }
+(("pq")+r|s)*t { return 23; }
 %%
 ''',
  'flags': r'''
